@@ -4,7 +4,7 @@ module SS = Stdlib.String
 module CC = Stdlib.Char
 (* helpers shared by the drivers: hex coding of byte strings, field splitting *)
 let unhex (s : string) : char list =
-  let s = if SS.length s > 0 && s.[0] = '#' then SS.sub s 1 (SS.length s - 1) else s in
+  let s = if SS.length s > 0 && (SS.get s (0)) = '#' then SS.sub s 1 (SS.length s - 1) else s in
   L.init (SS.length s / 2) (fun k -> CC.chr (int_of_string ("0x" ^ SS.sub s (2 * k) 2)))
 let hex (l : char list) : string =
   if l = [] then "#" else "#" ^ SS.concat "" (L.map (fun c -> Printf.sprintf "%02x" (CC.code c)) l)
